@@ -448,7 +448,7 @@ impl Text {
         let mut counter = 0;
         let mut mk_attrs = |rng: &mut Rng, counter: &mut usize| -> Vec<String> {
             let k = *rng.pick(&[0usize, 0, 1, 1, 2, 3, 4]);
-            (0..k)
+            let mut v: Vec<String> = (0..k)
                 .map(|_| {
                     *counter += 1;
                     if rng.chance(0.06) {
@@ -457,7 +457,15 @@ impl Text {
                         hostile_attr(rng, &format!("kvm{}x{}x", n, counter))
                     }
                 })
-                .collect()
+                .collect();
+            if !v.is_empty() && rng.chance(0.15) {
+                // the same attribute written twice (directly after itself, or elsewhere in the list)
+                let i = rng.below(v.len());
+                let a = v[i].clone();
+                let at = if rng.chance(0.6) { i + 1 } else { rng.below(v.len() + 1) };
+                v.insert(at, a);
+            }
+            v
         };
         for nt in &mut m.nts {
             nt.attrs = mk_attrs(rng, &mut counter);
@@ -528,7 +536,7 @@ impl Text {
                 if let Some(i) = a.find("kvm") {
                     let marker: String = a[i..].chars().take_while(|c| c.is_ascii_alphanumeric()).collect();
                     let occ = text.matches(&marker).count();
-                    if occ != 1 {
+                    if occ != src.matches(&marker).count() {
                         w.violation(&format!("attribute-occurs-{}-times", occ.min(3)), &format!("attribute {a:?} occurs {occ} times in the emitted text"), witness(Value::Null));
                     }
                 }
@@ -998,7 +1006,7 @@ impl Engine for Text {
     }
     fn rule(&self, prop: &str) -> String {
         match prop {
-            "C12" => "inputs: generated grammars whose struct / enum / terminal declarations carry 0-4 outer attributes each; attribute texts are random over an alphabet of everything but LF (nested brackets of the three kinds, //, #, $, quotes, TAB, CR, U+00A0, U+2028, U+FEFF, 2/3/4-byte characters at any offset incl. directly before the closing bracket, empty #[]), each with a unique marker, followed in the source by nothing / spaces / comments / newlines. One evaluation = one declaration: the lines immediately above `pub struct|enum <Name>` in the emitted text must be byte-for-byte the declaration's attributes in order, no attribute line may precede them, and every marked attribute must occur exactly once in the whole emitted text. Distinct non-trivial = distinct attribute texts longer than 4 bytes.".into(),
+            "C12" => "inputs: generated grammars whose struct / enum / terminal declarations carry 0-4 outer attributes each; attribute texts are random over an alphabet of everything but LF (nested brackets of the three kinds, //, #, $, quotes, TAB, CR, U+00A0, U+2028, U+FEFF, 2/3/4-byte characters at any offset incl. directly before the closing bracket, empty #[]), each with a unique marker, followed in the source by nothing / spaces / comments / newlines. One evaluation = one declaration: the lines immediately above `pub struct|enum <Name>` in the emitted text must be byte-for-byte the declaration's attributes in order, no attribute line may precede them, and every marked attribute must occur in the whole emitted text exactly as often as in the source (15 % of the non-empty lists repeat one attribute, directly after itself or elsewhere). Attribute texts also nest brackets 100-70 000 deep (6 %) and draw 6 % of their atoms from a dictionary harvested at run time from kiki's own sources (format placeholders like {node_enum_name}, identifiers). Distinct non-trivial = distinct attribute texts longer than 4 bytes.".into(),
             "C13" => "inputs: generated grammars whose terminals have random payload types from the Kiki type grammar (unit, paths of 1-6 segments, generics nested to depth 8 with 1-4 arguments, unit as argument) written with random whitespace / comments between their tokens. One evaluation = one emitted module: at every use site (terminal enum variant, every struct / variant field of that terminal, node enum variant, try_into_* return type) the emitted type, re-tokenised, must equal the declared token sequence. Distinct non-trivial = distinct type expressions.".into(),
             "C14" => "inputs: sources of every class (accepted grammars incl. the repository examples, conflicting grammars, every validation error, parse errors, lexical errors). One evaluation = one call of generate; every input is run 8 times in one process on 8 fresh threads (fresh SipHash keys per HashMap; odd runs go through the batch of 16 inputs backwards and one run calls every input twice in a row, so a dependence on earlier calls is visible), 4 more times on 4 threads running at the same time (each starting at another offset of the batch, one of them also calling get_grammar_hash: state shared between concurrent calls) and once in each of 2 further processes; the bytes of Ok results / the {:?} of errors (positions and attached automaton included) must be identical. A canary HashSet iterated in every run records how many distinct hash orders were actually sampled. Distinct non-trivial = distinct inputs that reach the automaton construction (Ok or TableConflict).".into(),
             "C15" => "inputs: (a) accepted sources with / without trailing newline, CRLF, non-ASCII, leading comment up to 60 KB: the emitted text must start with a // block containing `// @sha256 ` + the SHA-256 of the source computed by an independent implementation, get_grammar_hash must return exactly that digest, and the build-script freshness test (stored digest == digest of current file) must accept the same text and reject a text differing in one byte; (b) header-like texts assembled from fragments (//, `// @sha256 `, repeated prefixes, CR, CRLF, blank and non-comment lines, Unicode): get_grammar_hash vs the rule in the property statement. One evaluation = one text. Distinct non-trivial = distinct texts.".into(),
